@@ -81,6 +81,13 @@ impl Weights {
     }
 }
 
+/// Operation classes in the order of `Weights::list`.
+pub const CHOICES: [&str; 22] = [
+    "create", "update", "delete", "move", "archive", "unarchive", "create_folder", "rename_folder", "flags", "describe", "delete_folder",
+    "file_create", "file_update", "relock", "resign", "compact", "compact_account", "change_folder_pw", "change_account_pw", "change_cipher",
+    "folder_api", "illegal",
+];
+
 pub struct Driver {
     pub rng: Rng,
     pub weights: Weights,
@@ -98,6 +105,8 @@ pub struct Driver {
     pub old_folder_keys: Vec<(VaultId, AccessKey)>,
     pub old_account_passwords: Vec<SecretString>,
     pub log: Vec<String>,
+    /// call `initialize_search_index` after every sign-in (what a client does)
+    pub init_search: bool,
 }
 
 #[derive(Debug, Clone)]
@@ -122,7 +131,7 @@ impl Driver {
         Driver {
             rng, weights, model, password, markers: vec![], files_dir,
             max_folders: 7, max_secrets_per_folder: 8, max_file_bytes: 200_000, allow_large: true,
-            file_plain: BTreeMap::new(), old_folder_keys: vec![], old_account_passwords: vec![], log: vec![],
+            file_plain: BTreeMap::new(), old_folder_keys: vec![], old_account_passwords: vec![], log: vec![], init_search: false,
         }
     }
 
@@ -175,10 +184,20 @@ impl Driver {
         KINDS.iter().position(|k| name.starts_with(&k[..3.min(k.len())]) || *k == name).unwrap_or(0)
     }
 
+    /// Choose the next operation class (index into `CHOICES`).
+    pub fn choose(&mut self) -> usize {
+        let w = self.weights.list();
+        self.rng.weighted(&w)
+    }
+
     /// One random step.
     pub async fn step(&mut self, account: &mut LocalAccount) -> StepOutcome {
-        let w = self.weights.list();
-        let choice = self.rng.weighted(&w);
+        let choice = self.choose();
+        self.run_choice(choice, account).await
+    }
+
+    /// Execute an operation of the chosen class.
+    pub async fn run_choice(&mut self, choice: usize, account: &mut LocalAccount) -> StepOutcome {
         let out = match choice {
             0 => self.op_create(account).await,
             1 => self.op_update(account).await,
@@ -614,6 +633,9 @@ impl Driver {
         if result.is_ok() {
             result = account.sign_in(&self.key()).await.map(|_| ()).map_err(|e| format!("sign_in: {e}"));
         }
+        if result.is_ok() && self.init_search {
+            result = account.initialize_search_index().await.map(|_| ()).map_err(|e| format!("initialize_search_index: {e}"));
+        }
         Some(StepOutcome { op: "sign_out+sign_in".into(), kind: "resign", legal: true, result, touched: vec![], rewrote: vec![] })
     }
 
@@ -666,7 +688,12 @@ impl Driver {
         let r = account.change_cipher(&self.key(), &cipher, Some(kdf.clone())).await;
         let all = self.folder_ids();
         let _ = olds;
-        Some(StepOutcome { op: format!("change_cipher({cipher}, {kdf})"), kind: "change_cipher", legal: true, result: r.map(|_| ()).map_err(|e| format!("{e}")), touched: all.clone(), rewrote: all })
+        // only the folders whose cipher/kdf differed are converted
+        let converted: Vec<VaultId> = match &r {
+            Ok(c) => c.folders.iter().map(|s| *s.id()).filter(|id| all.contains(id)).collect(),
+            Err(_) => vec![],
+        };
+        Some(StepOutcome { op: format!("change_cipher({cipher}, {kdf}) converted {} folders", converted.len()), kind: "change_cipher", legal: true, result: r.map(|_| ()).map_err(|e| format!("{e}")), touched: all, rewrote: converted })
     }
 
     /// `sos_backend::Folder::{create,update,delete}_secret` with
